@@ -16,6 +16,7 @@ CONSTANTS
   CancelCalls = {1}
   EnvTClose = FALSE
   OrderedStart = TRUE
+  Eager = FALSE
   WithHist = FALSE
 VIEW ViewNoHist
 INVARIANTS NoLeak
